@@ -594,10 +594,16 @@ def _canon(x: Any) -> str:
     return repr(x)
 
 
+class Mismatch(Exception):
+    """A pure call disagrees with the same call on an equal, long-lived object."""
+
+
 def _guard(fn: Callable[[], Any]) -> Callable[[], str]:
     def g() -> str:
         try:
             return "ok:" + hashlib.sha256(_canon(fn()).encode()).hexdigest()[:20]
+        except Mismatch as e:
+            return f"bad:{e}"
         except LIB_ERRORS as e:
             return "refused:" + type(e).__name__
 
@@ -643,7 +649,7 @@ class Shared:
 
 FOCUS = {
     "wordlists": ("wordlist", "wordlist", "wordlist", "mnemonic"),
-    "tables": ("mult-Q", "prep-mult", "double-mult", "multi-mult", "mult-other-ec", "mult-G", "derive-pub", "second-gen", "b58decode", "electrum-old"),
+    "tables": ("fresh-curve", "mult-Q", "prep-mult", "double-mult", "multi-mult", "mult-other-ec", "mult-G", "derive-pub", "second-gen", "b58decode", "electrum-old"),
     "musig": ("musig-values", "musig-verify", "musig-verify"),
 }
 
@@ -664,6 +670,7 @@ def catalogue(ctx: Ctx, sh: Shared, wl: Any, k: int, only: tuple[str, ...] | Non
         "mult-G", "mult-Q", "prep-mult", "double-mult", "multi-mult", "mult-other-ec",
         "derive-prv", "derive-pub", "b58decode", "wordlist", "mnemonic", "second-gen",
         "electrum-old", "address", "dsa", "ssa", "musig-values", "musig-verify", "merkle",
+        "fresh-curve", "fresh-curve", "fresh-curve-dsa", "curve-id-reuse",
     ]
     if only is not None:
         kinds = list(only)
@@ -688,6 +695,21 @@ def catalogue(ctx: Ctx, sh: Shared, wl: Any, k: int, only: tuple[str, ...] | Non
             ec = sh.other_ec
             s2 = s % ec.n or 1
             fn = lambda s2=s2, ec=ec: mult(s2, ec.G, ec)  # noqa: E731
+        elif kind == "curve-id-reuse":
+            na = ch.pick(["secp256k1", "secp128r1", "secp256k1"], "reuse.a")
+            nb = ch.pick(["secp112r1", "secp160k1", "secp256k1", "secp128r1"], "reuse.b")
+            s3 = 1 + ch.draw(2**100, "reuse.scalar")
+            fn = lambda na=na, nb=nb, s3=s3: _curve_id_reuse(ctx, na, nb, s3)  # noqa: E731
+        elif kind in ("fresh-curve", "fresh-curve-dsa"):
+            # a short-lived Curve object equal to a catalogued one: its answers must not depend on
+            # which objects lived (and died) before it, nor on which arm serves an *equal* curve
+            name = ch.pick(["secp256k1", "secp112r1", "secp128r1", "secp256k1", "secp160k1"], "fresh.ec")
+            s3 = 1 + ch.draw(2**100, "fresh.scalar")
+            if kind == "fresh-curve":
+                fn = lambda name=name, s3=s3: _fresh_curve_mult(name, s3)  # noqa: E731
+            else:
+                m = ch.nbytes(32, "fresh.m")
+                fn = lambda name=name, s3=s3, m=m: _fresh_curve_dsa(name, s3, m)  # noqa: E731
         elif kind == "derive-prv":
             path = f"m/{ch.draw(3, 'p0')}h/{ch.draw(3, 'p1')}/{ch.draw(3, 'p2')}"
             fn = lambda path=path: bip32.derive(sh.root, path)  # noqa: E731
@@ -731,6 +753,76 @@ def catalogue(ctx: Ctx, sh: Shared, wl: Any, k: int, only: tuple[str, ...] | Non
     return out
 
 
+# fresh curves stay alive for the life of the worker: an address is reused only where the world injects it,
+# so that no run's outcome depends on which objects an earlier run of the same worker left to the allocator
+_KEEP: list[Any] = []
+
+
+def _clone_curve(name: str, keep: bool = True) -> Any:
+    from btclib.curves import CURVES, Curve  # noqa: PLC0415
+
+    ec = CURVES[name]
+    new = Curve(ec.p, ec._a, ec._b, ec.G, ec.n, ec.cofactor, weakness_check=False, order_check=False)
+    if keep and len(_KEEP) < 200000:
+        _KEEP.append(new)
+    return new
+
+
+def _fresh_curve_mult(name: str, s: int) -> Any:
+    from btclib.curves import mult  # noqa: PLC0415
+
+    ec = _clone_curve(name)
+    k = s % (ec.n - 1) + 1
+    return (name, mult(k, ec.G, ec), mult(k, None, ec))
+
+
+def _curve_id_reuse(ctx: Ctx, name_a: str, name_b: str, s: int) -> Any:
+    """Injected fault "object address reuse": a Curve equal to name_a is used and dies, then
+    Curve objects equal to name_b are allocated until one lands on the dead one's address
+    (CPython reuses freed blocks readily). The survivor's answers must be those of the
+    long-lived catalogue object of name_b."""
+    from btclib.curves import CURVES, mult  # noqa: PLC0415
+    from btclib.ecc import dsa  # noqa: PLC0415
+
+    a = _clone_curve(name_a, keep=False)
+    ka = s % (a.n - 1) + 1
+    ra = mult(ka, None, a)
+    if ra != mult(ka, None, CURVES[name_a]):
+        raise Mismatch(f"fresh {name_a} object: mult differs from the catalogue object's")
+    ida = id(a)
+    del a
+    keep = []
+    b = None
+    for _ in range(64):
+        b = _clone_curve(name_b, keep=False)
+        if id(b) == ida:
+            ctx.probes["curve-address-reused"] += 1
+            break
+        keep.append(b)
+    assert b is not None
+    kb = s % (b.n - 1) + 1
+    rb = mult(kb, None, b)
+    ref = CURVES[name_b]
+    if rb != mult(kb, None, ref):
+        raise Mismatch(f"a {name_b} object allocated after a {name_a} object died: mult differs from the catalogue object's")
+    m = hashlib.sha256(s.to_bytes(16, "big")).digest()
+    sig = dsa.sign_(m, kb, ec=b)
+    sig_ref = dsa.sign_(m, kb, ec=ref)
+    if (sig.r, sig.s) != (sig_ref.r, sig_ref.s) or not dsa.verify_(m, rb, sig_ref):
+        raise Mismatch(f"a {name_b} object allocated after a {name_a} object died: dsa differs from the catalogue object's")
+    return (name_a, name_b, ra, rb, sig.r, sig.s)
+
+
+def _fresh_curve_dsa(name: str, s: int, m: bytes) -> Any:
+    from btclib.curves import mult  # noqa: PLC0415
+    from btclib.ecc import dsa  # noqa: PLC0415
+
+    ec = _clone_curve(name)
+    q = s % (ec.n - 1) + 1
+    sig = dsa.sign_(m, q, ec=ec)
+    return (name, sig.r, sig.s, dsa.verify_(m, mult(q, ec.G, ec), sig))
+
+
 def _fresh_wordlists() -> Any:
     from btclib.mnemonic.mnemonic import WordLists  # noqa: PLC0415
 
@@ -757,6 +849,8 @@ def _independence(ctx: Ctx, rng: SimRng) -> None:
     sh.fresh_session()
     baseline = [fn() for _, fn in calls]
     ctx.log("baseline", len(calls), sum(1 for b in baseline if b.startswith("ok")))
+    for (kind, _), b in zip(calls, baseline):
+        ctx.check(P, "answer-independent-of-object-identity", not b.startswith("bad:"), b, site=kind)
     shrink = ch.draw(4, "shrink")
     mgr = st.ShrunkCaches(shrink) if shrink else None
     if mgr is not None:
@@ -776,6 +870,7 @@ def _independence(ctx: Ctx, rng: SimRng) -> None:
             got = fn()
             ctx.log("call", kind, got[:12])
             ctx.state(f"{kind}:{st.backend()}")
+            ctx.check(P, "answer-independent-of-object-identity", not got.startswith("bad:"), got, site=kind)
             ctx.check(P, "answer-independent-of-history", got == baseline[j], lambda: f"{kind}: {got} != baseline {baseline[j]} (bindings={st.backend()})", site=kind)
     finally:
         if mgr is not None:
